@@ -1,1 +1,293 @@
-//! Property-specific engine extensions for C10 (owned by the C10 check).
+//! Property-specific engine extensions for C10 (owned by the C10 check): drive a world to full resolution
+//! including on-chain resolution of closed channels, and the restart-safety oracles.
+
+use crate::chain::Reject;
+use crate::oracle_commit::{merged_since, M};
+use crate::rec::*;
+use crate::sim::*;
+use bitcoin::hashes::{sha256, Hash};
+use lightning::chain::channelmonitor::Balance;
+use lightning::events::{ClosureReason, Event};
+use lightning::ln::types::ChannelId;
+use std::collections::{BTreeMap, BTreeSet};
+use vcore::{CaseResult, Failure};
+
+fn fail(oracle: &str, detail: String) -> Failure {
+	Failure::new(oracle, detail)
+}
+
+impl Sim {
+	/// true if some node still expects on-chain funds from a closed channel or the mempool is not empty
+	pub fn onchain_unresolved(&self) -> bool {
+		if !self.chain.mempool.is_empty() {
+			return true;
+		}
+		for nd in self.w.nodes.iter() {
+			for b in nd.chain_monitor.chain_monitor.get_claimable_balances(&[]) {
+				if !matches!(b, Balance::ClaimableOnChannelClose { .. }) {
+					return true;
+				}
+			}
+		}
+		false
+	}
+
+	/// Reconnect everybody, settle off-chain, and mine until every closed channel is resolved on chain
+	/// (bounded). Returns (quiescent, blocks mined).
+	pub fn settle_with_chain(&mut self, max_blocks: u32) -> (bool, u32) {
+		let mut mined = 0;
+		let mut quiet = self.settle(30);
+		let mut idle_rounds = 0;
+		while mined < max_blocks {
+			for i in 0..self.w.n {
+				self.w.nodes[i].chain_monitor.chain_monitor.rebroadcast_pending_claims();
+				self.drain(i);
+			}
+			if !self.onchain_unresolved() {
+				break;
+			}
+			// mine everything that is valid now (arrival order), then let the nodes react
+			let txs = self.chain.mempool.clone();
+			let had = !txs.is_empty();
+			self.mine_block(txs);
+			mined += 1;
+			if !had {
+				// nothing to confirm: jump ahead to let timelocks mature
+				let burst = if idle_rounds < 3 { 5 } else { 20 };
+				for _ in 0..burst {
+					if mined >= max_blocks {
+						break;
+					}
+					self.mine_block(vec![]);
+					mined += 1;
+				}
+				idle_rounds += 1;
+			}
+			quiet = self.settle(20);
+		}
+		quiet = quiet && self.settle(20);
+		(quiet && !self.onchain_unresolved(), mined)
+	}
+}
+
+#[derive(Default, Clone, Debug)]
+pub struct RestartStats {
+	pub restarts: u64,
+	pub stale_manager_closures: u64,
+	pub resumed_channels: u64,
+	pub htlcs_pending_at_crash: u64,
+	pub manager_lagged: u64,
+	pub async_write_lost: u64,
+	pub broadcasts_checked: u64,
+	pub payments_sent: u64,
+	pub payments_failed: u64,
+	pub claimed_then_sent: u64,
+}
+
+/// What the harness knows about the persisted state at the moment of a manager snapshot.
+#[derive(Clone, Debug, Default)]
+pub struct SnapshotInfo {
+	/// per channel: latest update id handed to persistence when the snapshot was taken
+	pub latest_ids: BTreeMap<ChannelId, u64>,
+	pub open_channels: BTreeSet<ChannelId>,
+}
+
+pub struct RestartOracle {
+	cur_h: usize,
+	cur_s: usize,
+	/// (node, snapshot step) -> info
+	pub snap_info: BTreeMap<(usize, u64), SnapshotInfo>,
+	/// per node: payment hashes with a terminal event: hash -> (sent, failed)
+	terminal: BTreeMap<(usize, [u8; 32]), (u32, u32)>,
+	pub stats: RestartStats,
+	/// channels (by node) expected to be closed as outdated after the last restart
+	expect_outdated: BTreeSet<(usize, ChannelId)>,
+	seen_outdated: BTreeSet<(usize, ChannelId)>,
+	/// per node: step of the manager snapshot used by its latest restart
+	last_restart_snapshot: BTreeMap<usize, u64>,
+	/// (node, hash) -> step of the first PaymentSent
+	sent_at: BTreeMap<(usize, [u8; 32]), u64>,
+	claimable_at: BTreeMap<(usize, [u8; 32]), u64>,
+}
+
+impl RestartOracle {
+	pub fn new(sim: &Sim) -> RestartOracle {
+		RestartOracle {
+			cur_h: hist_len(),
+			cur_s: sim.log.len(),
+			snap_info: BTreeMap::new(),
+			terminal: BTreeMap::new(),
+			stats: RestartStats::default(),
+			expect_outdated: BTreeSet::new(),
+			seen_outdated: BTreeSet::new(),
+			last_restart_snapshot: BTreeMap::new(),
+			sent_at: BTreeMap::new(),
+			claimable_at: BTreeMap::new(),
+		}
+	}
+
+	/// call right after `sim.snapshot_manager(node)`
+	pub fn note_snapshot(&mut self, sim: &Sim, node: usize) {
+		let Some((step, _)) = sim.snapshots[node].last() else { return };
+		let st = sim.w.persisters[node].state.lock().unwrap();
+		let mut info = SnapshotInfo::default();
+		for (c, (id, _)) in st.latest.iter() {
+			info.latest_ids.insert(*c, *id);
+		}
+		for d in sim.w.nodes[node].node.list_channels() {
+			info.open_channels.insert(d.channel_id);
+		}
+		self.snap_info.insert((node, *step), info);
+	}
+
+	pub fn step(&mut self, sim: &Sim) -> CaseResult {
+		let evs = merged_since(sim, &mut self.cur_h, &mut self.cur_s);
+		for (at, ev) in evs {
+			match ev {
+				M::S(SEvent::Restart { node, snapshot_step, monitor_ids, ok, detail }) => {
+					self.last_restart_snapshot.insert(node, snapshot_step);
+					if !ok {
+						return Err(fail("restart-deserialization", format!("node {} could not be restarted from legally persisted state: {}", node, detail)));
+					}
+					self.stats.restarts += 1;
+					// (c) channels whose monitor is ahead of the manager snapshot must be closed, not resumed
+					if let Some(info) = self.snap_info.get(&(node, snapshot_step)) {
+						let mut lagged = false;
+						for (c, mon_id) in monitor_ids.iter() {
+							let snap_id = info.latest_ids.get(c).cloned().unwrap_or(0);
+							if *mon_id > snap_id && info.open_channels.contains(c) {
+								self.expect_outdated.insert((node, *c));
+								lagged = true;
+							}
+						}
+						if lagged {
+							self.stats.manager_lagged += 1;
+						}
+					}
+				},
+				M::S(SEvent::Ldk { node, ev }) => match &ev {
+					Event::ChannelClosed { channel_id, reason, .. } => {
+						if matches!(reason, ClosureReason::OutdatedChannelManager) {
+							self.seen_outdated.insert((node, *channel_id));
+							self.stats.stale_manager_closures += 1;
+						}
+					},
+					Event::PaymentClaimable { payment_hash, .. } => {
+						self.claimable_at.entry((node, payment_hash.0)).or_insert(at);
+					},
+					Event::PaymentSent { payment_hash, payment_preimage, .. } => {
+						let h = sha256::Hash::hash(&payment_preimage.0).to_byte_array();
+						if h != payment_hash.0 {
+							return Err(fail("payment-sent-untruthful", format!("node {} reported PaymentSent with a preimage that does not hash to the payment hash", node)));
+						}
+						let e = self.terminal.entry((node, payment_hash.0)).or_insert((0, 0));
+						e.0 += 1;
+						self.stats.payments_sent += 1;
+						self.sent_at.entry((node, payment_hash.0)).or_insert(at);
+						if e.1 > 0 {
+							return Err(fail("contradictory-terminal-events", format!("node {} reported PaymentSent after PaymentFailed for payment {}", node, payment_hash)));
+						}
+						// truthful: the recipient released the preimage (the harness called claim_funds)
+						if let Some(p) = sim.pays.iter().find(|p| p.hash == *payment_hash && p.from == node) {
+							if !(p.state == PayState::ClaimRequested || p.claimed_event) {
+								return Err(fail("payment-sent-untruthful", format!("node {} reported PaymentSent for pay#{} although the recipient never released the preimage (state {:?})", node, p.idx, p.state)));
+							}
+						}
+					},
+					Event::PaymentFailed { payment_hash: Some(payment_hash), .. } => {
+						let e = self.terminal.entry((node, payment_hash.0)).or_insert((0, 0));
+						e.1 += 1;
+						self.stats.payments_failed += 1;
+						// truthful failure: no part may still be pending. Decidable for a direct (one-hop) payment
+						// whose recipient holds the HTLC as claimable, has not failed it back, and whose expiry has
+						// not been reached on the chain: that HTLC is live and can still be claimed.
+						if let Some(p) = sim.pays.iter().find(|p| p.hash == *payment_hash && p.from == node) {
+							let live = p.path_chans.len() == 1
+								&& p.claimable_seen && (p.state == PayState::Claimable || p.state == PayState::ClaimRequested)
+								&& sim.chain.height() + 2 < p.cltv_expiry;
+							if live {
+								let claimable_at = self.claimable_at.get(&(p.to, payment_hash.0)).cloned().unwrap_or(0);
+								let stale = self.last_restart_snapshot.get(&node).map(|s| *s < claimable_at).unwrap_or(false);
+								let key = if stale { "payment-failed-while-htlc-live/manager-snapshot-predates-commitment" } else { "payment-failed-while-htlc-live" };
+								return Err(fail(
+									"payment-failed-while-htlc-live",
+									format!("node {} reported PaymentFailed for pay#{} although the recipient (node {}) holds the HTLC as claimable (expiry {}, chain height {}); restarted from manager snapshot of step {:?}, HTLC became claimable at step {}", node, p.idx, p.to, p.cltv_expiry, sim.chain.height(), self.last_restart_snapshot.get(&node), claimable_at),
+								)
+								.with_key(key));
+							}
+						}
+						if e.0 > 0 {
+							// exact signature of the documented limitation: the node restarted from a manager written
+							// before it saw PaymentSent, and the monitor had already forgotten the resolved HTLC
+							let sent = self.sent_at.get(&(node, payment_hash.0)).cloned().unwrap_or(0);
+							let stale = self.last_restart_snapshot.get(&node).map(|s| *s < sent).unwrap_or(false);
+							let key = if stale { "contradictory-terminal-events/failed-after-sent/manager-snapshot-predates-sent" } else { "contradictory-terminal-events/failed-after-sent" };
+							return Err(fail("contradictory-terminal-events", format!("node {} reported PaymentFailed after PaymentSent for payment {} (PaymentSent at step {}, restarted from manager snapshot of step {:?})", node, payment_hash, sent, self.last_restart_snapshot.get(&node))).with_key(key));
+						}
+					},
+					_ => {},
+				},
+				M::S(SEvent::Broadcast { node, tx, height, verdict }) => {
+					self.stats.broadcasts_checked += 1;
+					match verdict {
+						Ok(_) | Err(Reject::Duplicate) | Err(Reject::MempoolConflict(_)) | Err(Reject::AlreadySpent(_, _)) => {},
+						Err(Reject::MissingInput(op)) => {
+							// legitimate only if the parent was seen before (e.g. mined and reorged out / not yet mined
+							// because a competing transaction won); a spend of a never-seen output is not
+							if !sim.chain.seen.contains_key(&op.txid) {
+								return Err(fail("invalid-broadcast", format!("node {} broadcast {} spending unknown output {} at height {}", node, tx.compute_txid(), op, height)).with_key("invalid-broadcast/unknown-input"));
+							}
+						},
+						Err(e) => {
+							return Err(fail("invalid-broadcast", format!("node {} broadcast {} at height {} which is not valid for the next block: {:?}", node, tx.compute_txid(), height, e))
+								.with_key(format!("invalid-broadcast/{}", format!("{:?}", e).split(|c: char| !c.is_alphanumeric()).next().unwrap_or(""))));
+						},
+					}
+				},
+				_ => {},
+			}
+		}
+		Ok(())
+	}
+
+	/// After the post-crash settle: stale-manager channels were closed rather than resumed; payments whose
+	/// recipient claim was acknowledged to the recipient reached PaymentSent at the sender.
+	pub fn finish(&mut self, sim: &Sim, resolved: bool) -> CaseResult {
+		for (node, c) in self.expect_outdated.iter() {
+			let still_listed = sim.w.nodes[*node].node.list_channels().iter().any(|d| d.channel_id == *c);
+			if still_listed {
+				return Err(fail("stale-manager-channel-resumed", format!("node {} resumed channel {} although its ChannelMonitor was ahead of the ChannelManager it restarted from", node, c)));
+			}
+		}
+		if resolved {
+			// an HTLC too small for a commitment output is forfeited if its channel closes on chain before the
+			// claim is committed (the properties' stated exception): only non-dust amounts are asserted, with a
+			// margin of twice the highest current feerate estimate
+			let mut maxfee = 253u64;
+			for nd in sim.w.nodes.iter() {
+				maxfee = maxfee.max(*nd.fee_estimator.sat_per_kw.lock().unwrap() as u64);
+				for (_, v) in nd.fee_estimator.target_override.lock().unwrap().iter() {
+					maxfee = maxfee.max(*v as u64);
+				}
+			}
+			let dust_floor_msat = (354 + 703 * 2 * maxfee / 1000 + 1) * 1000;
+			for p in sim.pays.iter() {
+				if p.claimed_event && p.amt_msat >= dust_floor_msat {
+					let t = self.terminal.get(&(p.from, p.hash.0)).cloned().unwrap_or((0, 0));
+					if t.0 == 0 {
+						// the sender must know: unless it restarted from a manager that predates the send *and* no
+						// monitor carried the HTLC (then it legitimately has no record)
+						let listed = sim.w.nodes[p.from].node.list_recent_payments().len();
+						return Err(fail(
+							"claimed-but-never-sent",
+							format!("pay#{} was claimed by node {} (PaymentClaimed seen) but sender node {} never reported PaymentSent after full resolution (failed events: {}, recent payments listed: {})", p.idx, p.to, p.from, t.1, listed),
+						));
+					} else {
+						self.stats.claimed_then_sent += 1;
+					}
+				}
+			}
+		}
+		Ok(())
+	}
+}
